@@ -28,9 +28,6 @@ where
             kani::assert(unsafe { N_GRANTS } == 1 && live_grants() == 1, "C05.constructor.exactly_one_chunk");
             let g = geo::<LogAlloc, S>(unsafe { GRANTS[0] });
             kani::assert(g.size % 16 == 0 && bump.stats().size() == g.size && bump.stats().allocated() == 0, "C10.constructor.stats");
-            if which == 1 {
-                kani::assert(g.size >= 100 - 16, "C12.with_size.at_least_the_requested_size_less_the_assumed_overhead");
-            }
             if which == 2 {
                 // the layout the chunk was created for can be allocated without another chunk
                 let p = bump.as_scope().raw.alloc::<AllocError>(layout);
@@ -170,4 +167,62 @@ pub(crate) fn claim_guard_unallocated_dn4() {
 #[kani::unwind(4)]
 pub(crate) fn claim_guard_unallocated_used_up1() {
     ob_claim_guard_unallocated::<SUp1Un>(true);
+}
+
+/// `MutBumpVec::map_in_place` to an element type whose size does not divide the old one, then `into_slice` (C15): the
+/// position advances by the size of the final contents plus the alignment padding of the region - nothing else.
+pub(crate) fn ob_mut_vec_map_in_place<S>(hint: usize)
+where
+    S: BumpAllocatorSettings,
+    LogAlloc: crate::BaseAllocator<S::GuaranteedAllocated>,
+{
+    use crate::{BumpScope, MutBumpVec, polyfill::transmute_mut};
+    let mut a = Arena::<LogAlloc, S>::build(1, hint);
+    a.havoc();
+    let pos0 = a.snaps()[0].pos;
+    unsafe { BUDGET = 0 };
+    let vals: [u32; 2] = kani::any();
+    let mut out = (0usize, 0usize);
+    let mut pushed = 0;
+    {
+        let scope: &mut BumpScope<'_, LogAlloc, S> = unsafe { transmute_mut(&mut a.bump) };
+        let mut v = MutBumpVec::<u32, _>::new_in(&mut *scope);
+        if v.try_push(vals[0]).is_ok() {
+            pushed += 1;
+        }
+        if pushed == 1 && v.try_push(vals[1]).is_ok() {
+            pushed += 1;
+        }
+        let w = v.map_in_place(|x| [x as u8, (x >> 8) as u8, (x >> 16) as u8]);
+        kani::assert(w.len() == pushed && w.capacity() >= w.len(), "C08.mut_vec.map_in_place.len_and_capacity");
+        let sl = w.into_slice();
+        out = (sl.as_ptr() as usize, sl.len());
+        if pushed == 2 {
+            kani::assert(sl[0][0] == vals[0] as u8 && sl[1][2] == (vals[1] >> 16) as u8, "C15.mut_vec.map_in_place.into_slice_yields_the_mapped_elements");
+        }
+    }
+    unsafe { BUDGET = usize::MAX };
+    let pos1 = a.snaps()[0].pos;
+    if pushed > 0 {
+        // alignment padding of the region: the vector was prepared for u32 (align 4)
+        let pad = if S::UP { ((pos0 + 3) & !3) - pos0 } else { pos0 - (pos0 & !3) };
+        let adv = if S::UP { pos1 - pos0 } else { pos0 - pos1 };
+        let contents = 3 * pushed;
+        let min_pad = if S::UP { ((pos0 + pad + contents + S::MIN_ALIGN - 1) & !(S::MIN_ALIGN - 1)) - (pos0 + pad + contents) } else { 0 };
+        kani::assert(adv >= contents, "C01.mut_vec.map_in_place.slice_is_allocated");
+        kani::assert(adv <= contents + pad + min_pad + (if S::UP { 0 } else { S::MIN_ALIGN - 1 }), "C15.mut_vec.map_in_place.advance_is_contents_plus_alignment_padding");
+    }
+    kani::assert(a.wf(), "C10.mut_vec.map_in_place.wf");
+    kani::cover!(pushed == 2, "two-elements");
+}
+
+#[kani::proof]
+#[kani::unwind(5)]
+pub(crate) fn mut_vec_map_in_place_up1() {
+    ob_mut_vec_map_in_place::<SUp1>(64);
+}
+#[kani::proof]
+#[kani::unwind(5)]
+pub(crate) fn mut_vec_map_in_place_dn1() {
+    ob_mut_vec_map_in_place::<St<1, false, true, true, true>>(64);
 }
